@@ -235,6 +235,33 @@ def r2_lines_once(ctx):
     rets = [n for n in g.nodes if n.kind == 'stmt' and isinstance(n.ast, ast.Return)]
     augs = [n for n in g.nodes if n.kind == 'stmt' and isinstance(n.ast, ast.AugAssign) and is_name(n.ast.target, 'part_text')]
     ok = bool(augs) and all(isinstance(n.ast.op, ast.Add) and any(is_name(x, 'want_text') for x in ast.walk(n.ast.value)) for n in augs)
+    if not ok:
+        # the same assembly written another way: names that come from the want text and names that come from the source text ...
+        def derived(seeds):
+            names = set()
+            changed = True
+            while changed:
+                changed = False
+                for d in rd.defs:
+                    if d.name not in names and isinstance(d.value, ast.AST) and d.kind in ('assign', 'augassign') and \
+                            any((isinstance(y, ast.Attribute) and y.attr in seeds) or (isinstance(y, ast.Name) and y.id in names) for y in ast.walk(d.value)):
+                        names.add(d.name)
+                        changed = True
+            return names
+        wnames = derived({'want'})
+        snames = derived({'source', 'orig_lines'}) - wnames
+
+        def chain(e):
+            return chain(e.left) + chain(e.right) if isinstance(e, ast.BinOp) and isinstance(e.op, ast.Add) else [e]
+        # ... `return source_text + newline + want_text`
+        for n in rets:
+            parts = chain(n.ast.value) if n.ast.value is not None else []
+            if len(parts) >= 2 and isinstance(parts[0], ast.Name) and parts[0].id in snames and any(isinstance(p_, ast.Name) and p_.id in wnames for p_ in parts[1:]):
+                ok = True
+        if not ok:
+            reaches_result = any(isinstance(y, ast.Name) and y.id in wnames for n in rets if n.ast.value is not None for y in ast.walk(n.ast.value)) or \
+                any(isinstance(y, ast.Name) and y.id in wnames for n in augs for y in ast.walk(n.ast.value))
+            need(not reaches_result, 'C18.R2: the want text reaches the result in a way that was not recognised (neither `part_text += ... want_text` nor `return source + ... + want`)')
     rep.ob('C18.R2', ctx.loc(f, augs[0].ast if augs else f.node), 'want block appended after the source block', ok,
            'part_text += newline + want_text' if ok else 'the want block is not appended after the source', nontrivial=False, anchor=FP)
     # format_src joins the parts in order
